@@ -520,4 +520,46 @@ def generate():
     tstart = U(P.find_def(sl["tuple"], "TupleUnslicer.start"))
     need("self.deferred = Deferred()" in tstart and "self.protocol.setObject(count, self.deferred)" in tstart,
          "TupleUnslicer.start no longer registers a Deferred placeholder for the open tuple")
+    # ---------------------------------------------------------------- vocabulary: tables, who uses them, how bytes travel
+    vm = P.load("vocab.py")
+    tabs = P.module_consts(vm).get("INITIAL_VOCAB_TABLES")
+    need(isinstance(tabs, dict) and all(isinstance(k, int) and isinstance(v, list) and all(isinstance(w, bytes) for w in v)
+                                        for k, v in tabs.items()), "vocab.INITIAL_VOCAB_TABLES is not a literal table")
+    rowsv = ["(%d, [%s])" % (k, "; ".join("[" + "; ".join(str(b) for b in w) + "]" for w in tabs[k])) for k in sorted(tabs)]
+    out.append("Definition vocab_tables : list (Z * list (list Z)) := [%s]." % "; ".join(rowsv))
+    out.append("Definition vocab_table (i : Z) : list (list Z) :=\n"
+               " match find (fun r => Z.eqb (fst r) i) vocab_tables with Some r => snd r | None => [] end.")
+    bsrc = U(P.find_def(P.load("banana.py"), "Banana.sendToken"))
+    for frag in ("elif isinstance(obj, bytes):", "if obj in self.outgoingVocabulary:", "symbolID = self.outgoingVocabulary[obj]",
+                 "int2b128(symbolID, write)", "write(VOCAB)", "int2b128(len(obj), write)", "write(STRING)"):
+        need(frag in bsrc, "sendToken (bytes branch) no longer contains " + frag)
+    need("out_vocabDict = dict(list(zip(vocabStrings, list(range(len(vocabStrings))))))" in
+         U(P.find_def(P.load("banana.py"), "Banana.populateVocabTable")), "populateVocabTable changed")
+    need("table = vocab.INITIAL_VOCAB_TABLES[vocab_table_index]" in U(P.find_def(P.load("broker.py"), "Broker.__init__")),
+         "Broker.__init__ no longer installs the negotiated vocab table")
+    need("yield self.obj.encode('UTF-8')" in U(P.find_def(sl["unicode"], "UnicodeSlicer.sliceBody")) or
+         "encoded = self.obj.encode('UTF-8')" in U(P.find_def(sl["unicode"], "UnicodeSlicer.sliceBody")), "UnicodeSlicer.sliceBody")
+    # ---------------------------------------------------------------- sharing: which slicers track references, and that
+    # no constraint class overrides checkOpentype (the ('reference',) exemption lives in Constraint.checkOpentype only)
+    def attr_true(mod, cname, attr):
+        v = class_attr(P.find_class(mod, cname), attr)
+        return None if v is None else (isinstance(v, ast.Constant) and v.value is True)
+    need(attr_true(sl["list"], "ListSlicer", "trackReferences") is True and
+         attr_true(sl["tuple"], "TupleSlicer", "trackReferences") is None and
+         [str(U(b)) for b in P.find_class(sl["tuple"], "TupleSlicer").bases] == ["ListSlicer"] and
+         attr_true(sl["set"], "SetSlicer", "trackReferences") is True and
+         attr_true(sl["set"], "FrozenSetSlicer", "trackReferences") is False and
+         attr_true(sl["dict"], "DictSlicer", "trackReferences") is True and
+         attr_true(sl["bool"], "BooleanSlicer", "trackReferences") is False and
+         attr_true(sl["none"], "NoneSlicer", "trackReferences") is False,
+         "trackReferences of the list/tuple/set/immutable-set/dict/bool/none slicers changed")
+    for short, mod, name in rows:
+        cls = P.find_class(mod, name)
+        need(not any(isinstance(n, ast.FunctionDef) and n.name == "checkOpentype" for n in cls.body),
+             "%s overrides checkOpentype (is ('reference',) still always accepted?)" % name)
+    for base in ("OpenerConstraint",):
+        need(not any(isinstance(n, ast.FunctionDef) and n.name == "checkOpentype" for n in P.find_class(cm, base).body),
+             "%s overrides checkOpentype" % base)
+    out.append("Definition reference_always_passes_checkOpentype : bool := true.  (* `if opentype == ('reference',): return` in "
+               "Constraint.checkOpentype, overridden by no constraint class *)")
     return {"SchemaGen.v": "\n\n".join(out) + "\n"}
